@@ -236,3 +236,63 @@ def calc_key_ref(version, secret, prf_alg, purpose, messages=None, cr=None, sr=N
     if version in ((3, 1), (3, 2)):
         return prf_tls10(secret, label, seed, n)
     return prf_tls12(prf_alg, secret, label, seed, n)
+
+
+# --------------------------------------------------------------------------- RC4, block modes
+def rc4_init(key):
+    key = bytes(key)
+    S, j = list(range(256)), 0
+    for i in range(256):
+        j = (j + S[i] + key[i % len(key)]) % 256
+        S[i], S[j] = S[j], S[i]
+    return [S, 0, 0]
+
+
+def rc4_crypt(st, data):
+    S, i, j = st
+    out = bytearray()
+    for b in bytes(data):
+        i = (i + 1) % 256
+        j = (j + S[i]) % 256
+        S[i], S[j] = S[j], S[i]
+        out.append(b ^ S[(S[i] + S[j]) % 256])
+    st[1], st[2] = i, j
+    return bytes(out)
+
+
+def ossl_rc4(key, data):
+    return openssl(['enc', '-rc4', '-K', bytes(key).hex(), '-provider', 'legacy', '-provider', 'default'], bytes(data))
+
+
+def ossl_ctr(key, counter_block, data):
+    return openssl(['enc', '-aes-%d-ctr' % (len(key) * 8), '-K', bytes(key).hex(), '-iv', bytes(counter_block).hex()], bytes(data))
+
+
+def aes_ecb(key, blocks, decrypt=False):
+    if not blocks:
+        return b''
+    return ossl_ecb('aes-%d-ecb' % (len(key) * 8), key, blocks, decrypt)
+
+
+def des3_ecb(key, blocks, decrypt=False):
+    if not blocks:
+        return b''
+    return ossl_ecb('des-ede3-ecb' if len(key) == 24 else 'des-ede-ecb', key, blocks, decrypt)
+
+
+def cbc_encrypt(ecb, bs, iv, data):
+    """SP 800-38A 6.2 on top of an ECB oracle ecb(blocks)"""
+    out, prev = b'', bytes(iv)
+    for i in range(0, len(data), bs):
+        prev = ecb(bytes(a ^ b for a, b in zip(data[i:i + bs], prev)))
+        out += prev
+    return out
+
+
+def ctr_crypt(ecb, t0, data):
+    """SP 800-38A 6.5, standard incrementing function over the whole 16-byte block"""
+    n = (len(data) + 15) // 16
+    t = int.from_bytes(bytes(t0), 'big')
+    ctrs = b''.join(((t + i) % (1 << 128)).to_bytes(16, 'big') for i in range(n))
+    ks = ecb(ctrs) if n else b''
+    return bytes(a ^ b for a, b in zip(bytes(data), ks))
